@@ -18,6 +18,8 @@ compares within rounding with what the implementation returned.
 import io
 import json
 import os
+import threading
+import time
 import warnings
 
 from common import blit, llit, olit, zlit
@@ -429,9 +431,9 @@ def gen_merge_case(rng, valid):
     for _ in range(nl):
         declared = rng.choice([None, False, True, True])
         has_opts = rng.random() < 0.9
-        alpha_kind = None
-        if valid and (not has_opts or not declared):
-            alpha_kind = None if not has_opts else 'opaque'
+        # a layer not declared transparent may still deliver transparency (png8 with tRNS from a server that
+        # ignores transparent=false, tile sources): only the single-layer shortcut relies on the declaration
+        alpha_kind = 'opaque' if (valid and has_opts and not declared and rng.random() < 0.5) else None
         spec = gen_image(rng, n, alpha_kind)
         spec['opts'] = {'transparent': declared, 'opacity': rng.choice(OPACITIES)} if has_opts else None
         spec['cov'] = None
@@ -592,10 +594,6 @@ def oracle_merge(ctx, case, obs):
         skip.update(k for k, v in enumerate(case['ideal_gmask']) if v is None)
     tol = 2.0 + 1.5 * len(case['layers'])
     dist = ref_distance(pxs, acc, skip)
-    if trig_island(case) and dist > tol:
-        ctx.fail('merge,clip-island-order', 'clip coverage MultiPolygon with the island listed before the polygon whose '
-                 'hole contains it: the island is erased from the clip mask (differs by %.1f/255)' % dist, rep)
-        return
     if dist > tol:
         sig = trig[0] if trig else 'merge,composition-differs'
         ctx.fail(sig, 'LayerMerger result differs from the bottom-to-top over composition by %.1f/255 (tolerance %.1f)'
@@ -656,7 +654,7 @@ URLS = ['http://u1.example/service', 'http://u2.example/service']
 class World(object):
     """synthetic upstream: every layer name is a function world cell -> RGBA"""
 
-    def __init__(self, rng, names, kind=None):
+    def __init__(self, rng, names, kind=None, white=()):
         self.img = {}
         for nm in names:
             k = kind or rng.choice(['binary', 'binary', 'opaque', 'any'])
@@ -665,8 +663,15 @@ class World(object):
                 for y in range(-3, W + 3):
                     a = 255 if k == 'opaque' else (rng.choice([0, 255, 255]) if k == 'binary' else bv(rng))
                     cells[(x, y)] = (bv(rng), bv(rng), bv(rng), a)
+            if nm in white:          # opaque white content in the left part of the map
+                for (x, y) in cells:
+                    if x < 2:
+                        cells[(x, y)] = (255, 255, 255, 255)
             self.img[nm] = cells
         self.log = []
+        self.tags = threading.local()      # set by the interposition on LayerRenderer._render_layer
+        self.gate = None                   # (slow layer name, release layer name): schedule for concurrent rendering
+        self.released = threading.Event()
 
     def render(self, layers, transparent, bbox, size, url=None):
         # the two upstream servers render different content for the same layer name
@@ -695,9 +700,15 @@ class World(object):
         bbox = [float(v) for v in q['bbox'].split(',')]
         size = (int(q['width']), int(q['height']))
         base = u.scheme + '://' + u.netloc + u.path
-        self.log.append((base, layers, tr))
+        self.log.append((base, layers, tr, getattr(self.tags, 'ids', None)))
+        if self.gate and self.gate[0] in layers:
+            # this upstream answers only after the other one has answered (and its result was handed over)
+            self.released.wait(0.5)
+            time.sleep(0.05)
         b = io.BytesIO()
         self.render(layers, tr, bbox, size, base).save(b, 'png')
+        if self.gate and self.gate[1] in layers:
+            self.released.set()
         b.seek(0)
         b.headers = {'Content-type': 'image/png'}
         b.code = 200
@@ -792,7 +803,8 @@ def gen_config(rng, avoid_known):
             names.append(ly['name'])
             collect(ly.get('layers', []))
     collect(layers)
-    return {'sources': sources, 'layers': layers, 'names': names}
+    return {'sources': sources, 'layers': layers, 'names': names,
+            'concurrency': rng.choice([2, 2, 3]) if rng.random() < 0.15 else 1}
 
 
 def write_config(cfg, d):
@@ -822,7 +834,10 @@ def write_config(cfg, d):
         elif s['res'] == 'out':
             c['min_res'] = 1000
         srcs[nm] = c
-    conf = {'services': {'wms': {'md': {'title': 't'}, 'srs': ['EPSG:4326']}},
+    wms_conf = {'md': {'title': 't'}, 'srs': ['EPSG:4326']}
+    if cfg.get('concurrency', 1) > 1:
+        wms_conf['concurrent_layer_renderer'] = cfg['concurrency']
+    conf = {'services': {'wms': wms_conf},
             'layers': cfg['layers'], 'sources': srcs,
             'globals': {'cache': {'base_dir': d + '/cache', 'lock_dir': d + '/locks'}, 'image': {'paletted': False}}}
     path = os.path.join(d, 'mapproxy.yaml')
@@ -887,17 +902,21 @@ def wlayer_term(layer, srcmap):
                                  llit(layer.map_layers, srcmap['src']))
 
 
-def expand_ideal(layer):
-    """sources an ideal renderer draws for one requested layer (bottom first)"""
+def expand_leaves(layer):
+    """(layer name, sources) of the leaf layers an ideal renderer draws for one requested layer (bottom first)"""
     from mapproxy.service.wms import WMSGroupLayer
     if isinstance(layer, WMSGroupLayer):
         if layer.this:
-            return list(layer.this.map_layers)
+            return [(layer.this.name, list(layer.this.map_layers))]
         out = []
         for c in layer.layers:
-            out.extend(expand_ideal(c))
+            out.extend(expand_leaves(c))
         return out
-    return list(layer.map_layers)
+    return [(layer.name, list(layer.map_layers))]
+
+
+def expand_ideal(layer):
+    return [s for _, srcs in expand_leaves(layer) for s in srcs]
 
 
 WMS_DEFS = """
@@ -922,7 +941,7 @@ def fixed_scenarios():
         d.update(kw)
         return d
 
-    def cfg(sources, layers):
+    def cfg(sources, layers, concurrency=1):
         names = []
 
         def collect(ls):
@@ -930,7 +949,7 @@ def fixed_scenarios():
                 names.append(ly['name'])
                 collect(ly.get('layers', []))
         collect(layers)
-        return {'sources': sources, 'layers': layers, 'names': names}
+        return {'sources': sources, 'layers': layers, 'names': names, 'concurrency': concurrency}
     both = [(True, None, (0, 0)), (False, (10, 200, 30), (0, 0))]
     out = []
     # two sources of one server with equal opacity: each layer is faded on its own
@@ -954,7 +973,55 @@ def fixed_scenarios():
                     [{'name': 'l0', 'title': 'l0', 'sources': ['s0', 's1']}]),
                 [(['l0'], True, None, (0, 0)), (['l0'], True, None, (2, 0)), (['l0'], True, None, (0, 0)),
                  (['l0'], False, None, (-1, 1)), (['l0'], False, None, (0, 0))]))
+    # same coverage geometry, one source clips, the other does not (coverage equality ignores the clip flag)
+    out.append((cfg({'s0': src(0, ['u0'], True, cov=dict(lshape)),
+                     's1': src(0, ['u1'], True, cov=dict(lshape, clip=False, conf=dict(lshape['conf'], clip=False)))},
+                    [{'name': 'l0', 'title': 'l0', 'sources': ['s0', 's1']}, {'name': 'l1', 'title': 'l1', 'sources': ['s1', 's0']}]),
+                [(['l0'], True, None, (0, 0)), (['l1'], True, None, (0, 0))]))
+    # two sources with the same transparent_color; the upper one has key coloured content over the lower one
+    keyed = cfg({'s0': src(0, ['u0'], True, tcolor=(255, 255, 255)), 's1': src(0, ['u1'], True, tcolor=(255, 255, 255))},
+                [{'name': 'l0', 'title': 'l0', 'sources': ['s0', 's1']}])
+    keyed['white'] = ('u1',)
+    out.append((keyed, [(['l0'], True, None, (0, 0)), (['l0'], False, None, (0, 0))]))
+    # concurrent rendering, more layers than renderer threads, the upstream of a lower layer answers last
+    three = cfg({'s0': src(0, ['u0'], True), 's1': src(1, ['u1'], True), 's2': src(0, ['u2'], True)},
+                [{'name': 'l%d' % i, 'title': 'l', 'sources': ['s%d' % i]} for i in range(3)], concurrency=2)
+    out.append((three, [(['l0', 'l1', 'l2'], True, None, (0, 0), ('u0', 'u1')),
+                        (['l1', 'l0', 'l2'], False, None, (0, 0), ('u1', 'u0')),
+                        (['l0', 'l1', 'l2'], True, None, (0, 0), ('u2', 'u1')),
+                        (['l2', 'l1', 'l0'], False, (1, 2, 3), (0, 0), ('u2', 'u0'))]))
+    # a layer with an unlimited and a limited source, requested outside the range of the limited one
+    out.append((cfg({'s0': src(0, ['u0'], True), 's1': src(1, ['u1'], True, res='out'), 's2': src(1, ['u2'], True)},
+                    [{'name': 'l0', 'title': 'l0', 'sources': ['s0', 's1']},
+                     {'name': 'l1', 'title': 'l1', 'sources': ['s2']},
+                     {'name': 'g2', 'title': 'g', 'layers': [{'name': 'l3', 'title': 'l3', 'sources': ['s1']},
+                                                            {'name': 'l4', 'title': 'l4', 'sources': ['s0']}]}]),
+                [(['l0'], True, None, (0, 0)), (['l1', 'l0'], False, None, (0, 0)), (['l1', 'g2'], True, None, (0, 0))]))
     return out
+
+
+def layer_confs(cfg):
+    out = {}
+
+    def collect(ls):
+        for ly in ls:
+            out[ly['name']] = ly
+            collect(ly.get('layers', []))
+    collect(cfg['layers'])
+    return out
+
+
+def query_res(bbox):
+    """resolution of the map request in m/px as ResolutionRange.contains computes it (EPSG:4326)"""
+    from mapproxy.grid import deg_to_m
+    return deg_to_m(bbox[2] - bbox[0]) / W
+
+
+def explicit_range_ok(conf, bbox):
+    """None when the layer has no configured range, else whether the request is inside it (from the YAML values)"""
+    if conf is None or 'min_res' not in conf:
+        return None
+    return not (conf['min_res'] + 1e-6 <= query_res(bbox))
 
 
 def stream_wms(ctx):
@@ -976,17 +1043,33 @@ def stream_wms(ctx):
     from mapproxy.source.wms import WMSSource
     orig_render = LayerRenderer._render_layer
     orig_combined = WMSSource.combined_layer
-    added = []
+    from mapproxy.image.merge import LayerMerger
+    orig_add = LayerMerger.add
+    added = {}             # id(image source) -> (ids, image source, coverage): what each render task produced
+    add_order = []         # id(image source) in the order LayerMerger.add was called
     cur_ids = {}
+    curworld = {}
+    rng_ranges = []
+    rng_descr = []
 
     def ids_of(layer):
         return getattr(layer, '_c14_ids', None) or [cur_ids.get(id(layer), 0)]
 
     def rec_render(self, layer):
-        res = orig_render(self, layer)
+        curworld['w'].tags.ids = ids_of(layer)
+        try:
+            res = orig_render(self, layer)
+        finally:
+            curworld['w'].tags.ids = None
         if res[1] is not None:
-            added.append((ids_of(layer), res[1], layer.coverage))
+            added[id(res[1])] = (ids_of(layer), res[1], layer.coverage)
         return res
+
+    def rec_add(self, img, coverage=None):
+        if img is not None:
+            add_order.append(id(img))
+        return orig_add(self, img, coverage)
+    LayerMerger.add = rec_add
 
     def rec_combined(self, other, query):
         res = orig_combined(self, other, query)
@@ -1001,13 +1084,15 @@ def stream_wms(ctx):
             if ci < len(fixed):
                 cfg, planned = fixed[ci]
                 avoid_known = False
-                world = World(rng, ['u%d' % i for i in range(8)], kind='binary')
+                world = World(rng, ['u%d' % i for i in range(8)], kind='binary', white=cfg.get('white', ()))
             else:
                 avoid_known = rng.random() < 0.75
                 cfg, planned = gen_config(rng, avoid_known), None
                 world = World(rng, ['u%d' % i for i in range(8)])
             d = ctx.tmpdir('wms')
             path = write_config(cfg, d)
+            curworld['w'] = world
+            confs = layer_confs(cfg)
             H.HTTPClient.open = lambda self, url, data=None, method=None, _w=world: _w.open(url, data, method)
             try:
                 app = make_wsgi_app(path)
@@ -1042,6 +1127,31 @@ def stream_wms(ctx):
                     real_ml, lambda kv: '(%d, %s)' % (kv[0], llit(kv[1])))))
                 sel_descr.append({'config': cfg, 'layer': nm, 'is_opaque': real_op, 'map_layers': real_ml})
                 ctx.evaluations += 1
+                # resolution range of the layer: configured, or merged from its members (sources / sub layers)
+                from mapproxy.service.wms import WMSGroupLayer
+                from mapproxy.grid import merge_resolution_range
+                from functools import reduce
+                q0 = cur['query']
+                objs = [ly] + ([ly.this] if isinstance(ly, WMSGroupLayer) and ly.this else [])
+                for o in objs:
+                    if isinstance(o, WMSGroupLayer):
+                        mem = list(o.layers) + ([o.this] if o.this else [])
+                        explicit = None
+                    else:
+                        mem = list(o.map_layers)
+                        explicit = explicit_range_ok(confs.get(o.name), cur['bbox'])
+                    members = [(bool(m.res_range), not (m.res_range and not m.res_range.contains(q0.bbox, q0.size, q0.srs)))
+                               for m in mem]
+                    hull = True
+                    if mem and all(h for h, _ in members):
+                        hull = bool(reduce(merge_resolution_range, [m.res_range for m in mem]).contains(q0.bbox, q0.size, q0.srs))
+                    real = bool(o.renders_query(q0))
+                    rng_ranges.append('(%s, %s, %s, %s)' % (obool(explicit), llit(
+                        members, lambda m: '(%s, %s)' % (blit(m[0]), blit(m[1]))), blit(hull), blit(real)))
+                    rng_descr.append({'config': cfg, 'layer': o.name, 'configured_range_ok': explicit,
+                                      'members (has range, renders)': members, 'merged_range_contains': hull,
+                                      'renders_query': real})
+                    ctx.evaluations += 1
             # requests (a sequence on one application instance)
             history = []
             first = None
@@ -1051,9 +1161,16 @@ def stream_wms(ctx):
                     if first is None:
                         break
                     req_names, transparent, bg, off = first[0]      # the first request once more
+                    gate = None
                 elif planned:
-                    req_names, transparent, bg, off = planned[ri]
+                    req_names, transparent, bg, off = planned[ri][:4]
+                    gate = planned[ri][4] if len(planned[ri]) > 4 else None
                 else:
+                    gate = None
+                    if cfg.get('concurrency', 1) > 1 and rng.random() < 0.6:
+                        used = sorted(set(x for sc in cfg['sources'].values() for x in sc['layers']))
+                        if len(used) >= 2:
+                            gate = tuple(rng.sample(used, 2))
                     k = rng.choice([1, 1, 2, 2, 3, 3, 4, 5])
                     req_names = [rng.choice(cfg['names']) for _ in range(k)]
                     transparent = rng.random() < 0.5
@@ -1079,7 +1196,10 @@ def stream_wms(ctx):
                 # model terms are built BEFORE the request from the state of the real objects
                 req_t = llit([server.layers[nm] for nm in req_names], lambda ly: wlayer_term(ly, srcmap))
                 del world.log[:]
-                del added[:]
+                added.clear()
+                del add_order[:]
+                world.gate = gate
+                world.released.clear()
                 try:
                     resp = tapp.get(url, expect_errors=True)
                     if resp.status_int != 200 or not resp.content_type.startswith('image/'):
@@ -1089,9 +1209,18 @@ def stream_wms(ctx):
                         obs = ('image', im.mode, rgba_pixels(im))
                 except Exception as e:  # noqa
                     obs = ('error', 0, repr(e)[:200])
+                world.gate = None
                 log = list(world.log)
-                adds = list(added)
-                rep = {'config': cfg, 'previous_requests_on_this_application': list(history), 'request': url,
+                adds = [added[k] for k in add_order if k in added]       # in the order they were merged
+                # upstream requests in the order their images were merged (concurrent rendering starts them in any order)
+                by_ids = {}
+                for e in log:
+                    by_ids.setdefault(repr(e[3]), []).append(e)
+                merged_log = [by_ids[repr(a[0])].pop(0) for a in adds if by_ids.get(repr(a[0]))]
+                if len(merged_log) == len(log):
+                    log = merged_log
+                rep = {'config': cfg, 'upstream_schedule': None if gate is None else
+                       'upstream layer %s answers only after %s has answered' % gate, 'previous_requests_on_this_application': list(history), 'request': url,
                        'layers': req_names, 'transparent': transparent, 'bgcolor': bg, 'bbox': bbox,
                        'upstream_requests': log, 'response': obs,
                        'upstream_layers': {k: sorted((list(c), v) for c, v in world.img[k].items()
@@ -1113,17 +1242,18 @@ def stream_wms(ctx):
                 ctx.count('wms:layers=%d' % len(req_names))
                 ctx.count('wms:upstream_requests=%d' % len(log))
                 ctx.count('wms:bbox=%s' % ('base' if off == (0, 0) else 'shifted'))
+                ctx.count('wms:concurrent_layer_renderer=%d' % cfg.get('concurrency', 1))
                 if obs[0] != 'image':
                     ctx.fail('wms,error', 'GetMap failed: %r' % (obs,), rep)
                     continue
                 # ---- oracle: ideal composition of the individually rendered sources
-                oracle_wms(ctx, server, req_names, transparent, bg, world, query, obs, rep, size, bbox, snapshot)
+                oracle_wms(ctx, server, req_names, transparent, bg, world, query, obs, rep, size, bbox, snapshot, confs)
                 # ---- model
                 if len(adds) != len(log):
                     ctx.problem('harness', 'number of merged images differs from number of upstream requests', rep)
                     continue
                 table = []
-                for (u, lnames, tr), (ids, img, cov) in zip(log, adds):
+                for (u, lnames, tr, _tag), (ids, img, cov) in zip(log, adds):
                     pil = img.as_image()
                     lay = {'mode': pil.mode if pil.mode in ('RGB', 'RGBA', 'P', 'L') else 'L',
                            'trns': (('pal',) if pil.mode == 'P' else ('key', pil.info['transparency']))
@@ -1145,6 +1275,10 @@ def stream_wms(ctx):
         H.HTTPClient.open = orig_open
         LayerRenderer._render_layer = orig_render
         WMSSource.combined_layer = orig_combined
+        LayerMerger.add = orig_add
+    ctx.corr_check('layer_range', 'Compose', 'option bool * list (bool * bool) * bool * bool', rng_ranges,
+                   "fun c => let '(ex, members, hull, obs) := c in Bool.eqb (layer_res_ok ex members hull) obs",
+                   lambda i: rng_descr[i], shard=400)
     ctx.corr_check('select', 'Compose', 'wlayer * bool * list (Z * list Z)', sel_terms,
                    "fun c => let '(w, op, ml) := c in Bool.eqb (w_is_opaque w) op && "
                    "list_eqb (fun a b => (fst a =? fst b) && list_eqb Z.eqb (snd a) (snd b)) "
@@ -1153,8 +1287,15 @@ def stream_wms(ctx):
     ctx.corr_check('wms', 'Compose', WMS_TYPE, terms, WMS_CHECK, lambda i: descr[i], shard=40, defs=WMS_DEFS)
 
 
-def wms_triggers(server, req_names, transparent, query, world, snapshot):
+def wms_triggers(server, req_names, transparent, query, world, snapshot, confs=None, bbox=None):
     trig = []
+    if confs is not None:
+        for nm in req_names:
+            for leaf, _ in expand_leaves(server.layers[nm]):
+                if leaf != nm and explicit_range_ok(confs.get(leaf), bbox) is False:
+                    # WMSGroupLayer.map_layers_for_query collects the map layers of its sub layers without asking
+                    # their renders_query: a sub layer is drawn outside its configured min_res/max_res
+                    trig.append('wms,group-ignores-child-range')
     if len(set(req_names)) != len(req_names):
         trig.append('wms,duplicate-layer-name')
     keys = []
@@ -1169,6 +1310,14 @@ def wms_triggers(server, req_names, transparent, query, world, snapshot):
         allsrc.extend(expand_ideal(server.layers[nm]))
     for a, b in zip(allsrc, allsrc[1:]):
         if a.client.request_template.url == b.client.request_template.url and a.opacity is None and b.opacity is None:
+            if a.coverage is not None and b.coverage is not None and a.coverage == b.coverage \
+                    and bool(a.coverage.clip) != bool(b.coverage.clip):
+                # coverage equality ignores the clip flag: the combined source clips both (or none) of them
+                trig.append('wms,combine-clip-flag')
+            if a.transparent_color and b.transparent_color:
+                # the colour key is applied to the image composited by the server: key coloured content of the
+                # upper layer erases what is below it
+                trig.append('wms,combine-transparent-color')
             # judged by the CONFIGURED transparent flag (snapshot), not by the current state of the object
             if snapshot.get(id(b), b.image_opts.transparent) is None or (
                     b.transparent_color and
@@ -1180,16 +1329,21 @@ def wms_triggers(server, req_names, transparent, query, world, snapshot):
     return trig
 
 
-def oracle_wms(ctx, server, req_names, transparent, bg, world, query, obs, rep, size, bbox, snapshot):
+def oracle_wms(ctx, server, req_names, transparent, bg, world, query, obs, rep, size, bbox, snapshot, confs):
     n = size[0] * size[1]
     layers = []
     skip = set()
     count = 0
+    ideal_srcs = []
     for nm in req_names:
-        ly = server.layers[nm]
-        if not ly.renders_query(query):
-            continue
-        for s in expand_ideal(ly):
+        # a leaf layer is drawn unless its CONFIGURED range excludes the request (judged from the YAML values, not
+        # from layer.res_range); without a configured range every source decides for itself
+        for leaf, srcs in expand_leaves(server.layers[nm]):
+            if explicit_range_ok(confs.get(leaf), bbox) is False:
+                continue
+            ideal_srcs.extend(srcs)
+    for _ in [0]:
+        for s in ideal_srcs:
             if s.res_range and not s.res_range.contains(query.bbox, query.size, query.srs):
                 continue
             tmpl = s.client.request_template
@@ -1203,6 +1357,8 @@ def oracle_wms(ctx, server, req_names, transparent, bg, world, query, obs, rep, 
                 if geom is None:
                     from shapely.geometry import box
                     geom = box(*s.coverage.bbox)
+                if not s.coverage.clip:
+                    geom = geom.envelope        # without clip only the extent limits what is requested
                 outside = ideal_outside(geom, bbox, size, geom.equals(geom.envelope))
                 skip.update(k for k, v in enumerate(outside) if v is None)
                 pxs = [p[:3] + (0,) if out else p for p, out in zip(pxs, outside)]
@@ -1213,7 +1369,7 @@ def oracle_wms(ctx, server, req_names, transparent, bg, world, query, obs, rep, 
     tol = 2.0 + 1.5 * count
     dist = ref_distance(obs[2], acc, skip)
     if dist > tol:
-        trig = wms_triggers(server, req_names, transparent, query, world, snapshot)
+        trig = wms_triggers(server, req_names, transparent, query, world, snapshot, confs, bbox)
         sig = trig[0] if trig else 'wms,composition-differs'
         ctx.fail(sig, 'GetMap LAYERS=%s TRANSPARENT=%s BBOX=%s differs from the bottom-to-top composition of its layers by '
                  '%.1f/255 (tolerance %.1f)' % (','.join(req_names), transparent, ','.join(str(v) for v in bbox), dist, tol),
